@@ -308,6 +308,24 @@ pub fn hyphen_configs() -> Vec<Conv> {
         c.arg_mut("o").unwrap().visible_short_aliases.push('O');
         c.args.push(multi_pos(true, false, 1));
     }));
+    push("term:option", base(&|c| {
+        let o = c.arg_mut("o").unwrap();
+        o.num_args = Some((1, None));
+        o.terminator = Some(";".into());
+        c.args.push(ArgSpec::pos("p", 1));
+    }));
+    push("term:positional", base(&|c| {
+        let mut f = multi_pos(false, false, 1);
+        f.id = "f".into();
+        f.terminator = Some(";".into());
+        c.args.push(f);
+        c.args.push(ArgSpec::pos("q", 2));
+    }));
+    push("tva:positional", base(&|c| {
+        let mut p = multi_pos(false, false, 1);
+        p.trailing_var_arg = true;
+        c.args.push(p);
+    }));
     push("posorder:low-index-multiple+sub", {
         let mut c = CmdSpec::new("prog");
         c.args.push(ArgSpec::flag("a", Some('a'), Some("alpha")));
@@ -340,7 +358,7 @@ pub fn hyphen_configs() -> Vec<Conv> {
 }
 
 pub fn hyphen_alphabet() -> Vec<Vec<u8>> {
-    ["v", "-a", "--alpha", "-o", "--opt", "--opt=v", "-ov", "-z", "--unk", "-1", "--", "-az", "w", "sub", "-x", "-1.5", "-", "", "-e", "-ae", "u"]
+    ["v", "-a", "--alpha", "-o", "--opt", "--opt=v", "-ov", "-z", "--unk", "-1", "--", "-az", "w", "sub", "-x", "-1.5", "-", "", "-e", "-ae", "u", ";"]
         .iter()
         .map(|s| s.as_bytes().to_vec())
         .collect()
